@@ -168,7 +168,12 @@ int main(int argc, char** argv)
                     int(ci.nontrivial), ci.noops, cls.c_str());
         if (!v.ok)
         {
-            std::printf("FAIL signature=%s\n%s\n", v.signature.c_str(), v.message.c_str());
+            // a replay with the exclusion of a recorded finding switched off marks its signature: the
+            // recorded finding matches this marked signature only, never one from a generated case
+            std::string sig = v.signature;
+            if (const char* k = std::getenv("VF_ALLOW_KNOWN"))
+                sig += std::string("@probe:") + k;
+            std::printf("FAIL signature=%s\n%s\n", sig.c_str(), v.message.c_str());
             return 1;
         }
         std::printf("PASS\n");
